@@ -245,7 +245,7 @@ func H_C12_shape() {
 func H_C12_minimizeExact() {
 	W := uint(6)
 	if thorough() {
-		W = 9
+		W = 8
 	}
 	u := nondetU64("u")
 	assume(u < 1<<W)
@@ -449,7 +449,7 @@ func collectionLocalMin(L, maxElems int, wantZero bool, what string, run func(bu
 func H_C12_slice() {
 	L := 7
 	if thorough() {
-		L = 10
+		L = 9
 	}
 	g := SliceOf(Uint8())
 	collectionLocalMin(L, L/3, true, "slice", func(buf []uint64, persist bool) (bool, int, bool, *bufBitStream) {
@@ -484,11 +484,8 @@ func H_C12_sliceSigned() {
 
 // H_C12_map: MapOf(Uint8(), Bool()), at least k entries -> exactly k entries.
 func H_C12_map() {
-	L := 9
-	if thorough() {
-		L = 13
-	}
-	g := MapOf(Uint8(), Bool())
+	L := 8
+	g := MapOf(Bool(), Bool())
 	collectionLocalMin(L, L/4, false, "map", func(buf []uint64, persist bool) (bool, int, bool, *bufBitStream) {
 		s := newBufBitStream(append([]uint64(nil), buf...), persist)
 		t := newT(nil, s, false, nil)
